@@ -94,10 +94,8 @@ def reinterpret_expr(expr, symbols_from, symbols_to):
             elif op == OP_CONSTPOW:
                 work[o[0]] = work[i[0]]**work[i[1]]
             else:
-                print('Unknown operation: ', op)
-
-                print('------')
-                print('Evaluated ' + str(f))
+                # e.g. sin(x)<=1 with grid='inf': no polynomial certificate can be produced
+                raise Exception("Operation %s of '%s' cannot be reinterpreted on polynomial/spline objects (grid='inf' requires a polynomial expression)." % (str(op), str(f.instruction_MX(k))))
 
     return output_val[0]
 
